@@ -411,7 +411,7 @@ def main():
     ck = Check("C13", "wrappers and adapters")
     ck.mode = "REAL"
     depth = 2
-    ck.bound(stack_depth_methods="2 (all pairs) + 100 triples mixing action/observation/reward/time-limit layers" if ck.thorough else "1 (+pairs with an action wrapper)", unwrapped_depth=3 if ck.thorough else 2, state_dim=2, obs_dim=2,
+    ck.bound(stack_depth_methods="2 (all pairs)" + (" + 100 triples mixing action/observation/reward/time-limit layers" if ck.thorough else ""), unwrapped_depth=3 if ck.thorough else 2, state_dim=2, obs_dim=2,
              rescale="bounded dyadic boxes (float arithmetic exact)", timelimit="N >= 1 symbolic, count symbolic")
     ck.stub("base environment / gymnax environment: uninterpreted functions of all operands", "io_callback of the Gymnasium adapter: uninterpreted function of its operands and a sequence number",
             "TransformAction/Observation/Reward get arbitrary (uninterpreted) user functions")
@@ -423,8 +423,6 @@ def main():
     names = list(stacks.LAYERS)
     specs = [[n] for n in names]
     pairs = [list(p) for p in itertools.product(names, repeat=2)]
-    if not ck.thorough:
-        pairs = [p for p in pairs if any(x.endswith("Action") for x in p) and p[0] != p[1]]
     specs += pairs
     if ck.thorough:
         fam = {"a": ["ClipAction", "RescaleAction", "TransformAction"], "o": ["ClipObservation", "RescaleObservation", "FlattenObservation", "TransformObservation"],
